@@ -288,6 +288,9 @@ pub enum Policy<'a> {
     Prefix(&'a [usize]),
     /// follow the prefix, then choose at random
     Random(&'a [usize], u64),
+    /// random schedule in which the coordinator polls once although the channel is empty and tasks are outstanding
+    /// (at the step given by the second component)
+    Probe(u64, usize),
     /// at every point take the enabled decision that comes first in this list of wishes
     /// (action "begin" | "end" | "poll", task kind, file name, first pass)
     Guided(&'a [(String, String, String, bool)]),
@@ -309,8 +312,10 @@ pub fn run_controlled(cfg: Config, n: usize, policy: Policy) -> RunOutcome {
     let mut step = 0usize;
     let mut rng = match &policy {
         Policy::Random(_, s) => *s | 1,
+        Policy::Probe(s, _) => *s | 1,
         _ => 1,
     };
+    let mut probed = false;
     let mut wishes: Vec<(String, String, String, bool)> = match &policy {
         Policy::Guided(w) => w.to_vec(),
         _ => vec![],
@@ -319,12 +324,14 @@ pub fn run_controlled(cfg: Config, n: usize, policy: Policy) -> RunOutcome {
     let mut detail = String::new();
     let mut idle = 0usize;
     loop {
-        match ctl.wait_quiescent(Duration::from_secs(10)) {
+        match ctl.wait_quiescent(Duration::from_secs(30)) {
             Wait::Finished => break,
             Wait::Problem(p) => {
                 let g = ctl.inner.lock().unwrap();
                 verdict = if g.problem.as_deref().map(|s| s.starts_with("panic")).unwrap_or(false) {
                     "panic".into()
+                } else if p.starts_with("hang") {
+                    "hang".into()
                 } else {
                     "stuck".into()
                 };
@@ -347,7 +354,22 @@ pub fn run_controlled(cfg: Config, n: usize, policy: Policy) -> RunOutcome {
                 } else {
                     idle = 0;
                 }
-                let en = ctl.enabled();
+                let mut en = ctl.enabled();
+                if let Policy::Probe(_, at) = &policy {
+                    if !probed && step >= *at {
+                        let with = ctl.enabled_opt(true);
+                        if with.len() > en.len() {
+                            // the extra decision is the empty poll: take it now
+                            probed = true;
+                            en = with;
+                            let idx = en.len() - 1;
+                            choices.push((idx, en.len()));
+                            ctl.apply(&en[idx]);
+                            step += 1;
+                            continue;
+                        }
+                    }
+                }
                 if en.is_empty() {
                     verdict = "stuck".into();
                     detail = "no decision enabled".into();
@@ -355,6 +377,7 @@ pub fn run_controlled(cfg: Config, n: usize, policy: Policy) -> RunOutcome {
                 }
                 let idx = match &policy {
                     Policy::Prefix(p) => p.get(step).cloned().unwrap_or(0).min(en.len() - 1),
+                    Policy::Probe(_, _) => (xorshift(&mut rng) % en.len() as u64) as usize,
                     Policy::Random(p, _) => match p.get(step) {
                         Some(i) => (*i).min(en.len() - 1),
                         None => (xorshift(&mut rng) % en.len() as u64) as usize,
@@ -465,6 +488,43 @@ pub fn run_free_opts(cfg: Config, n: usize, jitter: Option<u64>, log_pp: bool, c
     if verdict == "hang" || verdict == "panic" {
         c.release_all();
     }
+    let events = c.take_events();
+    if verdict == "hang" {
+        // a task whose last sign of life is the start of a shell command is waiting for that command: a command that
+        // does not terminate is the project's business, not a hang of txtpp
+        let mut open_cmd = false;
+        let mut last: std::collections::HashMap<String, &str> = std::collections::HashMap::new();
+        for e in &events {
+            if let (Some(k), Some(f)) = (e["e"].as_str(), e["f"].as_str()) {
+                if matches!(k, "begin" | "run" | "end") {
+                    last.insert(f.to_string(), k);
+                }
+            }
+        }
+        for (_, k) in last {
+            if k == "run" {
+                open_cmd = true;
+            }
+        }
+        if open_cmd {
+            verdict = "cmd-timeout".into();
+        }
+    }
+    RunOutcome { verdict, choices: vec![], events, detail }
+}
+
+/// run exactly as in production: no gate at all (the coordinator polls and sleeps on its own), only recording
+pub fn run_ungated(cfg: Config, n: usize) -> RunOutcome {
+    let c = Ctl::new(ctl::Mode::Ungated, n);
+    let rx = spawn_run(cfg, c.clone());
+    let (verdict, detail) = match rx.recv_timeout(Duration::from_secs(60)) {
+        Ok(Ok(ok)) => (if ok { "ok".to_string() } else { "err".to_string() }, String::new()),
+        Ok(Err(e)) => ("panic".to_string(), e),
+        Err(_) => {
+            c.release_all();
+            ("hang".to_string(), "no result after 60 s".to_string())
+        }
+    };
     let events = c.take_events();
     RunOutcome { verdict, choices: vec![], events, detail }
 }
